@@ -266,6 +266,14 @@ fn build_settings(v: u64) -> String {
     let f = s2.set_value(KEY, v).and_then(|_| s2.get_value::<u64>(KEY));
     let mut cx = Context::new();
     let g = cx.set_settings(json.as_str()).and_then(|_| cx.settings().get_value::<u64>(KEY));
+    // every IntoSettings form, TOML strings included
+    let h = Context::new().with_settings(toml.as_str()).and_then(|c| c.settings().get_value::<u64>(KEY));
+    let i = Context::new().with_settings(toml.clone()).and_then(|c| c.settings().get_value::<u64>(KEY));
+    let j = Context::new().with_settings(serde_json::json!({"core": {"merkle_tree_max_proofs": v}})).and_then(|c| c.settings().get_value::<u64>(KEY));
+    let (a, b, c, d, e, f, g) = match (a, b, c, d, e, f, g, h, i, j) {
+        (a, b, c, d, e, f, g, Ok(h), Ok(i), Ok(j)) if h == v && i == v && j == v => (a, b, c, d, e, f, g),
+        other => return format!("builder-mismatch:{other:?}").replace(' ', ""),
+    };
     match (a, b, c, d, e, f, g) {
         (Ok(a), Ok(b), Ok(c), Ok(d), Ok(e), Ok(f), Ok(g)) if [a, b, c, d, e, f, g].iter().all(|x| *x == v) => v.to_string(),
         other => format!("builder-mismatch:{other:?}").replace(' ', ""),
@@ -730,9 +738,144 @@ fn concurrency(run: &mut Run, rng: &mut Rng) {
     run.obligations.insert("main-thread-legacy-settings-untouched".to_string(), clean_tls == cc::tls_full());
 }
 
+fn merge(target: &mut serde_json::Value, overlay: &serde_json::Value) {
+    match (target, overlay) {
+        (serde_json::Value::Object(t), serde_json::Value::Object(o)) => {
+            for (k, v) in o {
+                merge(t.entry(k.clone()).or_insert(serde_json::Value::Null), v);
+            }
+        }
+        (t, o) => *t = o.clone(),
+    }
+}
+
+/// Contexts configured through EVERY `IntoSettings` form (JSON str, TOML str, String,
+/// serde_json::Value, Settings value / reference, settings files json / toml, `set_settings`), several
+/// in a row on one thread (clean or poisoned): (a) no key of the thread's legacy settings moves,
+/// (b) the context's effective settings are the defaults overlaid with exactly the given document
+/// — whatever was built on the thread before —, (c) a read through the context gives the report of
+/// a clean thread.
+fn into_settings_forms(run: &mut Run, rng: &mut Rng) {
+    let dir = vh::common::scratch("c24-forms");
+    let defaults = serde_json::to_value(Settings::default()).unwrap_or_default();
+    // (json document, the same as toml)
+    let docs: Vec<(serde_json::Value, String)> = vec![
+        (serde_json::json!({"verify": {"verify_trust": false, "remote_manifest_fetch": false, "ocsp_fetch": false}, "core": {"merkle_tree_max_proofs": 7}}), "[verify]\nverify_trust = false\nremote_manifest_fetch = false\nocsp_fetch = false\n[core]\nmerkle_tree_max_proofs = 7\n".into()),
+        (serde_json::json!({"verify": {"remote_manifest_fetch": false, "ocsp_fetch": false}, "core": {"merkle_tree_max_proofs": 9}}), "[verify]\nremote_manifest_fetch = false\nocsp_fetch = false\n[core]\nmerkle_tree_max_proofs = 9\n".into()),
+        (serde_json::json!({"verify": {"verify_after_reading": false, "remote_manifest_fetch": false, "ocsp_fetch": false}, "builder": {"thumbnail": {"enabled": false}}}), "[verify]\nverify_after_reading = false\nremote_manifest_fetch = false\nocsp_fetch = false\n[builder.thumbnail]\nenabled = false\n".into()),
+        (serde_json::json!({"verify": {"remote_manifest_fetch": false, "ocsp_fetch": false}, "core": {"decode_identity_assertions": false, "max_decompressed_manifest_size_in_mb": 3}}), "[verify]\nremote_manifest_fetch = false\nocsp_fetch = false\n[core]\ndecode_identity_assertions = false\nmax_decompressed_manifest_size_in_mb = 3\n".into()),
+    ];
+    for (k, (j, t)) in docs.iter().enumerate() {
+        let _ = std::fs::write(dir.join(format!("d{k}.json")), j.to_string());
+        let _ = std::fs::write(dir.join(format!("d{k}.toml")), t);
+    }
+    let (fmt, asset) = probe_asset().clone();
+    // references on the main thread (legacy settings never written), JSON form: report per document
+    let reference: Vec<String> = docs
+        .iter()
+        .map(|(j, _)| match Context::new().with_settings(j.to_string().as_str()) {
+            Ok(c) => cc::read_with(&Arc::new(c), &fmt, &asset),
+            Err(e) => format!("ctx-error:{e:?}"),
+        })
+        .collect();
+    let docs = Arc::new(docs);
+    let reference = Arc::new(reference);
+    let poisons = cc::poisons();
+    let nthreads = if run.thorough() { 24 } else { 8 };
+    let mut handles = vec![];
+    for t in 0..nthreads {
+        let (docs, reference, defaults, dir, fmt, asset) = (docs.clone(), reference.clone(), defaults.clone(), dir.clone(), fmt.clone(), asset.clone());
+        let poison = if t % 2 == 1 { Some(poisons[(t / 2) % poisons.len()].clone()) } else { None };
+        let seed = rng.next();
+        handles.push(std::thread::spawn(move || {
+            let mut r = Rng::new(seed);
+            let mut fails: Vec<(String, String)> = vec![];
+            if let Some(p) = &poison {
+                let _ = Settings::from_string(p, "json");
+            }
+            let mut prev = String::from("-");
+            let mut built = 0usize;
+            for _ in 0..10 {
+                let k = r.below(docs.len() as u64) as usize;
+                let form = r.below(10);
+                let (j, tml) = &docs[k];
+                let before = cc::tls_full();
+                let (name, ctx): (&str, c2pa::Result<Context>) = match form {
+                    0 => ("json-str", Context::new().with_settings(j.to_string().as_str())),
+                    1 => ("toml-str", Context::new().with_settings(tml.as_str())),
+                    2 => ("toml-String", Context::new().with_settings(tml.clone())),
+                    3 => ("json-Value", Context::new().with_settings(j.clone())),
+                    4 => ("Settings-value", Settings::new().with_toml(tml).and_then(|s| Context::new().with_settings(s))),
+                    5 => ("Settings-ref", Settings::new().with_json(&j.to_string()).and_then(|s| Context::new().with_settings(&s))),
+                    6 => ("file-json", Settings::new().with_file(dir.join(format!("d{k}.json"))).and_then(|s| Context::new().with_settings(s))),
+                    7 => ("file-toml", Settings::new().with_file(dir.join(format!("d{k}.toml"))).and_then(|s| Context::new().with_settings(s))),
+                    8 => ("set_settings-toml-str", {
+                        let mut c = Context::new();
+                        c.set_settings(tml.as_str()).map(|_| c)
+                    }),
+                    _ => ("json-String", Context::new().with_settings(j.to_string())),
+                };
+                let here = format!("document #{k} as {name} (thread {t}, {}; previous on this thread: {prev})", if poison.is_some() { "poisoned legacy settings" } else { "clean legacy settings" });
+                let after = cc::tls_full();
+                if before != after {
+                    fails.push(("settings-builder-changed-thread-local-settings".into(), format!("building a context from {here} changed the thread's legacy settings")));
+                }
+                match ctx {
+                    Ok(c) => {
+                        let mut want = defaults.clone();
+                        merge(&mut want, j);
+                        let got = serde_json::to_value(c.settings()).unwrap_or_default();
+                        if got != want {
+                            let mut where_ = vec![];
+                            if let (Some(g), Some(w)) = (got.as_object(), want.as_object()) {
+                                for (sec, wv) in w {
+                                    if g.get(sec) != Some(wv) {
+                                        where_.push(format!("{sec}: {} <> expected {}", short(&g.get(sec).map(|x| x.to_string()).unwrap_or_default()), short(&wv.to_string())));
+                                    }
+                                }
+                            }
+                            fails.push(("context-settings-not-defaults-plus-document".into(), format!("{here}: effective settings differ from defaults overlaid with the document at {where_:?}")));
+                        }
+                        let rep = cc::read_with(&Arc::new(c), &fmt, &asset);
+                        if rep != reference[k] {
+                            fails.push(("context-report-depends-on-how-settings-were-given".into(), format!("{here}: {} vs clean-thread JSON reference {}", short(&rep), short(&reference[k]))));
+                        }
+                        built += 1;
+                    }
+                    Err(e) => fails.push(("settings-form-rejected".into(), format!("{here}: {e:?}"))),
+                }
+                prev = format!("#{k} as {name}");
+            }
+            (fails, built)
+        }));
+    }
+    let mut total = 0;
+    for h in handles {
+        match h.join() {
+            Ok((fails, built)) => {
+                total += built;
+                for (class, detail) in fails {
+                    let idx = run.reqs.len().saturating_sub(1);
+                    run.fail(idx, &class, detail);
+                }
+            }
+            Err(_) => {
+                let idx = run.reqs.len().saturating_sub(1);
+                run.fail(idx, "panic", "into_settings_forms: worker thread panicked".into());
+            }
+        }
+    }
+    run.count("into_settings_form_threads");
+    run.nontrivial(format!("into-settings-forms {total}"));
+    run.notes.push(format!("IntoSettings forms: {total} contexts built through 10 forms on {nthreads} threads (half poisoned)"));
+    run.obligations.insert("into-settings-forms-exercised".to_string(), total >= nthreads * 8);
+    let _ = std::fs::remove_dir_all(&dir);
+}
+
 pub fn run(run: &mut Run, rng: &mut Rng) {
-    run.rule = "(a) random programs (0–5 ops each) over 1–4 real contexts and real threads executed in a random total order: two programs (`sched`) and 1–16 programs (`schedn`); non-trivial = ≥2 non-empty programs satisfying the theorems' hypothesis (any two ops of different programs touch different cells or are both shared-safe); conflicting programs are also generated (the model must still agree). Worker threads carry legacy thread-local settings that differ from every context's settings. (b) rounds of 1–16 real threads × shared/distinct contexts doing reads AND signs (signer from the context's settings), cancelling another context and calling settings builders with random delays, each thread with poisoned legacy settings; results compared with a clean-thread baseline, every key of the legacy settings watched; rounds that cancel the shared context mid-run (each op cancelled or baseline, cancelled is sticky)".to_string();
+    run.rule = "(a) random programs (0–5 ops each) over 1–4 real contexts and real threads executed in a random total order: two programs (`sched`) and 1–16 programs (`schedn`); non-trivial = ≥2 non-empty programs satisfying the theorems' hypothesis (any two ops of different programs touch different cells or are both shared-safe); conflicting programs are also generated (the model must still agree). Worker threads carry legacy thread-local settings that differ from every context's settings. (b) rounds of 1–16 real threads × shared/distinct contexts doing reads AND signs (signer from the context's settings), cancelling another context and calling settings builders with random delays, each thread with poisoned legacy settings; results compared with a clean-thread baseline, every key of the legacy settings watched; rounds that cancel the shared context mid-run (each op cancelled or baseline, cancelled is sticky). (c) contexts built through every IntoSettings form (JSON/TOML str, String, Value, Settings value/ref, json/toml files, set_settings), ten in a row per thread on clean and poisoned threads: legacy settings untouched, effective settings = defaults + document, report = clean-thread reference".to_string();
     model_cases(run, rng);
     model_cases_n(run, rng);
+    into_settings_forms(run, rng);
     concurrency(run, rng);
 }
